@@ -52,6 +52,7 @@ class Runner:
         self.call_rem = {}        # thread -> remainder at the previous loop head of the call in progress
         self.spin = None
         self.grew = None
+        self.lost = None          # (thread, window, op): asleep in out_buffer_cv.wait, not notified, window open
         self.iterated = {}
 
     def step(self, op):
@@ -61,6 +62,9 @@ class Runner:
         self.rig.do(op)
         self.reqs.append(op)
         self.impl.append(self.rig.view())
+        lw = self.rig.lost_wakeup()
+        if lw is not None and self.lost is None:
+            self.lost = (lw, self.rig.chan.out_window_size, op)
         for t, lt in enumerate(self.rig.threads):
             if lt.state == "loophead":
                 key = (lt.info, chan_state(self.rig))
@@ -185,6 +189,73 @@ def grid(ctx, rng, batches):
                         batches.append((case, run.reqs, run.impl))
 
 
+def parked_senders(ctx, rng, batches):
+    """Two or three threads blocked in sendall / sendall_stderr / send on ONE channel at window 0, then fewer window
+    adjustments than sleepers, each leaving window over after the first woken sender is done; both park orders,
+    blocking and timed mode.  STRICT scheduling: a sleeper runs again only if the real code notified it (or, in
+    timed mode, when its timeout expires).  Every blocked call must complete once window is available."""
+    for mode in ("b", "t5"):
+        for nsend in (2, 3):
+            for order in ([0, 1, 2], [1, 0, 2], [2, 1, 0]):
+                for kinds in (("sendall", "sendall"), ("sendall", "send"), ("send", "sendall")):
+                    order_n = [t for t in order if t < nsend]
+                    rig = lib_chan.Rig(32768, 0, 32768, nsend + 1)
+                    run = Runner(rig)
+                    run.reqs.append("init 32768 0 32768 %d 0" % (nsend + 1))
+                    run.impl.append(rig.view())
+                    sizes = {t: rng.choice([1, 100, 300]) for t in range(nsend)}
+                    try:
+                        run.step("mode " + mode)
+                        for t in order_n:
+                            kind = kinds[t % 2]
+                            ext = rng.randrange(2)
+                            if kind == "sendall":
+                                run.step("sendall %d %d %d" % (t, sizes[t], ext))
+                                run.step("iter %d" % t)
+                            else:
+                                run.step("send %d %d %d" % (t, sizes[t], ext))
+                        parked = [t for t in order_n if rig.threads[t].state == "waiting"]
+                        # ONE adjustment, big enough for everybody
+                        run.step("adjust %d" % (sum(sizes.values()) + rng.choice([1, 500, 5000])))
+                        for _ in range(40):
+                            before = rig.view()
+                            for t in range(nsend):
+                                lt = rig.threads[t]
+                                if lt.state == "hold":
+                                    run.step("emit %d" % t)
+                                elif lt.state == "loophead":
+                                    run.step("iter %d" % t)
+                                elif lt.state == "waiting" and rig.is_signalled(t):
+                                    run.step("wake %d 0" % t)
+                            if rig.view() == before:
+                                break
+                        case = {"mode": mode, "park_order": order_n, "kinds": kinds, "sizes": sizes,
+                                "parked_at_window_0": parked, "schedule": run.reqs[1:], "wire": list(rig.wire)}
+                        ctx.case(("parked", mode, tuple(order_n), kinds, tuple(sorted(sizes.items()))), len(parked) >= 2)
+                        ctx.dist("parked-sender-scenarios")
+                        ctx.dist("parked-senders", len(parked))
+                        stuck = [t for t in range(nsend) if rig.threads[t].state == "waiting"
+                                 and rig.chan.out_window_size > 0]
+                        if stuck:
+                            ctx.fail("sendall-blocked-with-window-open:lost-wakeup", case,
+                                     "thread(s) %r still asleep in _wait_for_send_window, un-notified, with "
+                                     "out_window_size=%d after one window adjustment woke only part of %d sleepers"
+                                     % (stuck, rig.chan.out_window_size, len(parked)))
+                            if mode != "b":    # what the application then sees: a timeout although the window is open
+                                t = stuck[0]
+                                run.step("wake %d 1000" % t)
+                                case["result_after_timeout"] = rig.threads[t].result
+                        else:
+                            for t in range(nsend):
+                                want = ("D%d" if kinds[t % 2] == "sendall" else "r%d") % sizes[t]
+                                if rig.threads[t].state == "idle" and rig.threads[t].result != want:
+                                    ctx.fail("sendall-unexpected-outcome:parked-senders", case,
+                                             "thread %d: %s, expected %s" % (t, rig.threads[t].result, want))
+                    finally:
+                        rig.teardown()
+                    batches.append((case, run.reqs, run.impl))
+
+
 def random_part(ctx, rng, n, batches):
     for i in range(n):
         nthr = rng.choice([2, 3])
@@ -215,6 +286,9 @@ def random_part(ctx, rng, n, batches):
                 ctx.fail("sendall-no-progress:remainder-not-shortened:random", case,
                          "thread %d: an iteration left the remainder at %d (was %d)"
                          % (run.grew[0], run.grew[2], run.grew[1]))
+            if run.lost:
+                ctx.fail("sendall-blocked-with-window-open:lost-wakeup:random", case,
+                         "thread %d sleeps un-notified with out_window_size=%d after %r" % run.lost)
             if run.spin:
                 c = rig.chan
                 tag = "closed" if c.closed else "eof_sent" if c.eof_sent else "open"
@@ -247,9 +321,14 @@ def run(ctx):
                 "distinct cell or schedule; non-trivial = not the plain open/no-event cell, or a schedule with a "
                 "sendall call")
     ctx.trust("threading.Lock/Condition semantics (see C19)")
+    import paramiko.channel as chmod
+    from pv import lib_chanlock
+    sites, notifies = lib_chanlock.channel_tables(chmod.Channel)
+    ctx.write_generated("ChanLock", lib_chanlock.lean_tables(sites, notifies, lib_chanlock.window_accesses(chmod.Channel)))
     ctx.build(extra_modules=["PV.Model.ChanDriver"])
     batches = []
     grid(ctx, ctx.rng, batches)
+    parked_senders(ctx, ctx.rng, batches)
     random_part(ctx, ctx.rng, 12000 if ctx.thorough else 3000, batches)
     c19.compare(ctx, "C25", batches)
 
@@ -263,7 +342,9 @@ META = {
               "call that returned handed over exactly the length it was given (returns_only_when_all_sent); an "
               "iteration or wake-up on a closed / write-shut channel raises (iteration_after_shutdown_raises, "
               "wakeup_after_shutdown_raises). C25_witness: before the repair an iteration after shutdown_write changes "
-              "nothing at all (endless loop)."),
+              "nothing at all (endless loop). Several senders parked on one channel: window_adjust_notifies_all (AST fact), "
+              "blocked_sendall_is_notified (strict scheduling: a sleeper with window available has a notification "
+              "pending, so every blocked sendall runs again and completes or raises)."),
     "note": ("'Never loops forever' = no iteration returns to the loop head with the same remainder, so a call makes "
              "at most len(data) iterations; an unbounded sleep of a BLOCKING call on an open channel whose peer never "
              "opens the window is blocking, not looping, and is outside the statement. Spurious wake-ups with zero "
